@@ -89,7 +89,16 @@ def diff_signature(e, diff):
     if any("_summary_" in t and _summary_list_groupby(e, t) for t in tables):
       return "summary-by-list-column"
     return "summary-table"
+  if "structure" in tags:
+    names = set()
+    for l in diff:
+      m = re.match(r"table ([A-Za-z0-9_]+)|([A-Za-z0-9_]+) row ids|([A-Za-z0-9_]+)\.", l)
+      if m: names.add(next(g for g in m.groups() if g))
+    if names and all("_summary_" in n or n.startswith("_grist_") for n in names) and \
+        any("_summary_" in n for n in names):
+      return "summary-table-rebuilt"
+    if names and all(n.startswith("_grist_") for n in names): return "metadata-rows-differ"
+    return "user-tables-or-rows-differ"
   if "lookup" in tags: return "stale-lookup"
-  if "structure" in tags: return "tables-or-rows-differ"
   if "metadata" in tags: return "metadata"
   return "+".join(sorted(tags)) or "unknown"
